@@ -272,7 +272,7 @@ void Explorer<FSM>::checkC11(const Node& node, Exec& x) {
 		Op ref = op; ref.n = (uint8_t) VT_COUNTS.compo;
 		Exec y;
 		Exec* saved = cur; const unsigned sp = props; props = 0;
-		run(node, Step{ref, {}}, y);
+		run(node, Step{ref, x.step.script}, y);	 // same environment answers / callback decisions as the over-full run
 		props = sp; cur = saved; --transitions;
 		++counters["c11_overfull_bursts"];
 		if (y.keyAfter != x.keyAfter || y.after.active != x.after.active || y.after.resumable != x.after.resumable)
